@@ -1,7 +1,8 @@
 """C48 - compilation caches never return stale results.
 
 State space: the input vector of a compilation = (bytes of the source, of a cimported .pxd, of an included
-.pxi, of a `cdef extern` header; every member of CompilationOptions.default_options that has an alternative
+.pxi, of cimported/included files whose names resemble the special 'cython' module (cython_x, cythonx, cy,
+Cython_x, cythonpkg/dep, cython_inc.pxi), of a `cdef extern` header; every member of CompilationOptions.default_options that has an alternative
 value in OPTION_ALTS (the table is checked against the introspected default_options: members without an
 entry are listed in the evidence as uncovered); every compiler directive of Options._directive_defaults
 (bool: toggled; None-default: True and False; enumerated: every member); compile_time_env; Extension
@@ -15,8 +16,8 @@ Oracle after EVERY step: all generated artefacts (.c/.cpp/.h/_api.h/...) are byt
 UNCACHED `cythonize(cache=False)` of the same vector produces in the same directory.  A component whose
 change leaves the uncached output unchanged may hit or miss freely.
 
-cython.inline: components code text, argument type, language_level, cython_compiler_directives (cdivision,
-cpow, language_level-as-directive); histories A->B->A
+cython.inline: components code text, text inside a str / bytes / f-string literal, argument
+type, language_level, cython_compiler_directives (cdivision, cpow, language_level-as-directive); histories A->B->A
 through (i) one process (in-memory _cython_inline_cache + sys.modules) and (ii) a fresh process per call
 sharing lib_dir (on-disk module cache); oracle: the value returned for a probe input equals the value an
 uncached (force=True, private lib_dir, fresh process) compilation of the same vector returns.
@@ -158,6 +159,22 @@ BASE_FILES = {
     'h.h': '#define HV 1\n',
     'p.pyx': P_PYX,
 }
+# dependency files whose NAMES merely resemble the special 'cython' module (prefix, no separator, other case, package)
+NAME_DEPS = {
+    'cython_x.pxd': ('KA', 'from cython_x cimport KA'),
+    'cythonx.pxd': ('KB', 'from cythonx cimport KB'),
+    'cy.pxd': ('KC', 'from cy cimport KC'),
+    'Cython_x.pxd': ('KD', 'from Cython_x cimport KD'),
+    'cythonpkg/dep.pxd': ('KE', 'from cythonpkg.dep cimport KE'),
+    'cython_y.pxd': ('KF', 'cimport cython_y'),
+    'plain_dep.pxd': ('KG', 'from plain_dep cimport KG'),
+}
+for _fn, (_k, _stmt) in NAME_DEPS.items():
+    BASE_FILES[_fn] = 'cdef enum:\n    %s = 1\n' % _k
+BASE_FILES['cythonpkg/__init__.py'] = ''
+BASE_FILES['cython_inc.pxi'] = 'NI = 1\n'
+BASE_FILES['n.pyx'] = ('\n'.join(st for _k, st in NAME_DEPS.values()) + '\ninclude "cython_inc.pxi"\ndef nv():\n    return ('
+                       + ', '.join(('cython_y.KF' if k == 'KF' else k) for k, _st in NAME_DEPS.values()) + ', NI)\n')
 BASE_OPTIONS = {'language_level': 3, 'compile_time_env': {'CTE': 1}}
 
 # alternatives for CompilationOptions members (keys of Main.default_options)
@@ -233,6 +250,9 @@ def components(tier):
     comps.append(('file', 'd.pxi', 'value', filemut('d.pxi', 'DV = 4\n')))
     comps.append(('file', 'h.h', 'define', filemut('h.h', '#define HV 2\n')))
     comps.append(('file', 'p.pyx', 'code', filemut('p.pyx', P_PYX.replace('x // 2', 'x // 3'))))
+    for fn, (k, _stmt) in NAME_DEPS.items():
+        comps.append(('file', fn, 'enum', filemut(fn, 'cdef enum:\n    %s = 2\n' % k)))
+    comps.append(('file', 'cython_inc.pxi', 'value', filemut('cython_inc.pxi', 'NI = 2\n')))
     for opt, alts in sorted(OPTION_ALTS.items()):
         for val in alts:
             def m(v, opt=opt, val=val):
@@ -247,7 +267,7 @@ def components(tier):
             comps.append(('directive', name, repr(val), m))
     for key, val in (('language', 'c++'), ('py_limited_api', True), ('libraries', ['m'])):
         def m(v, key=key, val=val):
-            for mod in ('a.pyx', 'p.pyx', 'i.pyx'):
+            for mod in ('a.pyx', 'p.pyx', 'i.pyx', 'n.pyx'):
                 v['ext'].setdefault(mod, {})[key] = val
         comps.append(('ext', key, repr(val), m))
     return comps
@@ -288,6 +308,7 @@ def _write_vector(treedir, vec):
         shutil.rmtree(treedir)
     os.makedirs(treedir)
     for fn, text in vec['files'].items():
+        os.makedirs(os.path.dirname(os.path.join(treedir, fn)), exist_ok=True)
         with open(os.path.join(treedir, fn), 'w') as f:
             f.write(text)
 
@@ -435,6 +456,10 @@ def inline_components():
         ('directive', 'cdivision', setk(directives={'cdivision': True})),
         ('directive', 'cpow', setk(code='return a ** (b - 3)', directives={'cpow': True})),
         ('directive', 'language_level', setk(code='return a / b', directives={'language_level': 2})),
+        # snippets that differ only INSIDE a literal (the key must be built from the original, not the literal-stripped code)
+        ('literal', 'str', setk(code="return 'right' + a", args={'a': 'x'})),
+        ('literal', 'bytes', setk(code="return b'right' + a", args={'a': {'__bytes__': 'x'}})),
+        ('literal', 'fstring', setk(code="return f'right{a}|'", args={'a': 'x'})),
     ]
 
 
@@ -446,6 +471,12 @@ def inline_base_for(comp):
         v['code'] = 'return a / b'
     if (kind, name) == ('directive', 'cpow'):
         v['code'] = 'return a ** (b - 3)'
+    if (kind, name) == ('literal', 'str'):
+        v.update(code="return 'left' + a", args={'a': 'x'})
+    if (kind, name) == ('literal', 'bytes'):
+        v.update(code="return b'left' + a", args={'a': {'__bytes__': 'x'}})
+    if (kind, name) == ('literal', 'fstring'):
+        v.update(code="return f'left{a}|'", args={'a': 'x'})
     if kind == 'incfiles':
         v['code'] = 'from dep cimport K\nreturn a + K'
         v['incfiles'] = {'dep.pxd': 'cdef enum:\n    K = 10\n'}
@@ -454,7 +485,7 @@ def inline_base_for(comp):
 
 def _inline_call(vec, lib_dir, incdir, force):
     from Cython.Build.Inline import cython_inline
-    kw = dict(vec['args'])
+    kw = {k: (v['__bytes__'].encode() if isinstance(v, dict) else v) for k, v in vec['args'].items()}
     extra = {}
     if vec['language_level'] is not None:
         extra['language_level'] = vec['language_level']
@@ -536,6 +567,8 @@ def _histories(tier):
             mods = ['p.pyx']
         if c[0] == 'file' and c[1] == 'd.pxi':
             mods = ['i.pyx']
+        if c[0] == 'file' and (c[1] in NAME_DEPS or c[1] == 'cython_inc.pxi'):
+            mods = ['n.pyx']
         hists.append({'shape': 'ABA', 'comps': [c[:3]], 'vectors': [base, b, base], 'modules': mods})
     if tier == 'thorough':
         structural = [c for c in comps if c[0] != 'directive']
@@ -553,7 +586,8 @@ def _histories(tier):
             # A -> B1 -> B1B2 -> B2 (drop the first change again): every step changes one component
             hists.append({'shape': 'A/B1/B1B2/B2', 'comps': [c1[:3], c2[:3]], 'vectors': [base, b1, b12, b2],
                           'modules': (['a.pyx', 'p.pyx'] if 'ext' in (c1[0], c2[0]) or 'p.pyx' in (c1[1], c2[1]) else ['a.pyx'])
-                          + (['i.pyx'] if 'd.pxi' in (c1[1], c2[1]) and not {'profile', 'linetrace'} & {c1[1], c2[1]} else [])})
+                          + (['i.pyx'] if 'd.pxi' in (c1[1], c2[1]) and not {'profile', 'linetrace'} & {c1[1], c2[1]} else [])
+                          + (['n.pyx'] if any(c[0] == 'file' and (c[1] in NAME_DEPS or c[1] == 'cython_inc.pxi') for c in (c1, c2)) else [])})
     return hists
 
 
